@@ -360,6 +360,15 @@ static void family_iscanc(std::vector<hm::Scenario>& out, unsigned oracles) {
                 add(out, "iscanc", *sh, {{cursors[0]}, {wops[a], wops[b]}}, oracles, false, 2, 2);
             }
         }
+        if (sn == "I2_1_1" || sn == "I3_1_1_1") {
+            // two structural writers next to a cursor: sibling single-key nodes emptied together, one of them revived (the state in
+            // which a leftmost live border once kept a prev_ link to its retired sibling and backward cursors spun forever)
+            for (std::size_t ci = 0; ci < cursors.size(); ci += 1) {
+                bool q = sn == "I2_1_1" && ci == 2; // backward cursor, early_abort off
+                add(out, "iscanc", *sh, {{cursors[ci]}, {mk(REMOVE, "08")}, {mk(REMOVE, "09"), mk(PUT, "09", 2)}}, oracles, q, 2, 2);
+                add(out, "iscanc", *sh, {{cursors[ci]}, {mk(REMOVE, "08"), mk(PUT, "08", 2)}, {mk(REMOVE, "09")}}, oracles, false, 2, 2);
+            }
+        }
         if (sh->pal.count("in") != 0 && sh->pal.count("new") != 0) {
             // remove a key the cursor may already have delivered + insert a new one into the same node (rank bookkeeping of the cursor)
             bool flat = sn[0] != 'L';
